@@ -236,6 +236,7 @@ TrTallySnapshot ==
 
 DropCommon(t) ==
   Flag(InWindow(t), "C02:drop_inside_timed_section")
+  \cup Flag(InWindow(t), "C01:value_dropped_before_the_end_of_its_timed_section")
   \cup Flag(lp = "run" /\ started[t] /\ \E u \in Threads \ panicked : ~ended[u],
             "C08:drop_before_all_threads_ended")
   \cup Flag(lp = "run" /\ ~started[t], "C01:drop_before_timed_section")
